@@ -320,9 +320,29 @@ Definition partial_fragmentation (sdu : list N) (fs : list pdu) (rem : list N) :
   (fs = [] /\ rem = sdu) \/
   (exists s cs, fs = (2, s) :: map (fun x => (1, x)) cs /\ s ++ concat cs ++ rem = sdu).
 
-Inductive sent_as : list (list N) -> list pdu -> Prop :=
-| sent_nil : sent_as [] []
-| sent_whole sdu fs sdus pdus :
-    fragmentation sdu fs -> sent_as sdus pdus -> sent_as (sdu :: sdus) (fs ++ pdus)
-| sent_part sdu fs rem :
-    rem <> [] -> partial_fragmentation sdu fs rem -> sent_as [sdu] fs.
+(* the data PDUs committed so far are the fragmentations of the accepted SDUs, in order; the last SDU
+   may be committed only in part (rem = its bytes that are still waiting) *)
+Definition sent_as (sdus : list (list N)) (pdus : list pdu) : Prop :=
+  exists fss, pdus = concat fss /\ Forall2 fragmentation sdus fss.
+Definition sending_as (sdus : list (list N)) (pdus : list pdu) : Prop :=
+  sent_as sdus pdus \/
+  exists sdus0 sdu fss fs rem,
+    sdus = sdus0 ++ [sdu] /\ pdus = concat fss ++ fs /\ Forall2 fragmentation sdus0 fss /\
+    rem <> [] /\ partial_fragmentation sdu fs rem.
+
+(* max_tx_size() in effect after a trace *)
+Fixpoint maxtx_from (cur : N) (tr : list (op * out)) : N :=
+  match tr with
+  | [] => cur
+  | (MaxTx n, (ROk, _)) :: t => maxtx_from n t
+  | _ :: t => maxtx_from cur t
+  end.
+Definition maxtx_after (tr : list (op * out)) : N := maxtx_from min_buffer_size tr.
+
+(* PDUs the radio has sent *)
+Fixpoint radioed (tr : list (op * out)) : list pdu :=
+  match tr with
+  | [] => []
+  | (Radio, (RPdu p, _)) :: t => p :: radioed t
+  | _ :: t => radioed t
+  end.
